@@ -10,10 +10,13 @@ import (
 	"strings"
 	"time"
 
+	"cosmossdk.io/collections"
 	sdkmath "cosmossdk.io/math"
 	sdk "github.com/cosmos/cosmos-sdk/types"
+	authtypes "github.com/cosmos/cosmos-sdk/x/auth/types"
 	banktypes "github.com/cosmos/cosmos-sdk/x/bank/types"
 	distrtypes "github.com/cosmos/cosmos-sdk/x/distribution/types"
+	govtypes "github.com/cosmos/cosmos-sdk/x/gov/types"
 	govv1 "github.com/cosmos/cosmos-sdk/x/gov/types/v1"
 	"github.com/ethereum/go-ethereum/common"
 
@@ -111,6 +114,11 @@ type c07Run struct {
 	kinds    map[string]bool
 	outcomes map[string]bool
 	diligent []*fix.Oracle
+	// spenders: proposals whose message lets the governance account spend its own balance, which is the
+	// escrow of every open proposal's deposits; escrowShort names the kinds that had passed when the
+	// escrow first held less than the recorded deposits
+	spenders    map[uint64]string
+	escrowShort string
 }
 
 func (r *c07Run) logf(f string, a ...interface{}) {
@@ -126,7 +134,7 @@ func runC07(cs core.Case, verbose bool) core.CaseResult {
 		res.Inconclusive = err.Error()
 		return res
 	}
-	r := &c07Run{spec: spec, res: &res, verb: verbose, kinds: map[string]bool{}, outcomes: map[string]bool{}}
+	r := &c07Run{spec: spec, res: &res, verb: verbose, kinds: map[string]bool{}, outcomes: map[string]bool{}, spenders: map[uint64]string{}}
 	r.run()
 	var ks, os []string
 	for k := range r.kinds {
@@ -147,11 +155,70 @@ func (r *c07Run) block(dt time.Duration) bool {
 	_, err := r.c.EndBlock(dt)
 	r.res.Count("blocks", 1)
 	if err != nil {
+		if r.escrowShort == "" && strings.Contains(err.Error(), "insufficient funds") {
+			// the escrow may have become short in the failing block itself: attribute to the spending
+			// proposals that had passed or were due for execution in it
+			r.escrowShort = r.dueSpenders(true)
+		}
+		if r.escrowShort != "" && strings.Contains(err.Error(), "insufficient funds") {
+			r.res.Violate("C07/block-failed/deposit-escrow-spent-by-governance/"+r.escrowShort, "FinalizeBlock/Commit failed at height %d after passed proposals (%s) spent the deposit escrow: %s", r.c.Height, r.escrowShort, err.Error())
+			return false
+		}
 		r.res.Violate("C07/block-failed/"+normalizeErr(err.Error()), "FinalizeBlock/Commit failed at height %d: %s", r.c.Height, err.Error())
 		return false
 	}
 	r.observeAging()
+	r.observeEscrow()
 	return true
+}
+
+// dueSpenders names the message types of the spending proposals that have passed (or, with pending set,
+// whose voting ended by the time of the open block).
+func (r *c07Run) dueSpenders(pending bool) string {
+	c := r.c
+	var ks []string
+	seen := map[string]bool{}
+	ids := make([]uint64, 0, len(r.spenders))
+	for id := range r.spenders {
+		ids = append(ids, id)
+	}
+	sort.Slice(ids, func(i, j int) bool { return ids[i] < ids[j] })
+	for _, id := range ids {
+		p, ok := fix.Proposal(c, id)
+		if !ok || seen[r.spenders[id]] {
+			continue
+		}
+		if p.Status == govv1.StatusPassed || (pending && p.Status == govv1.StatusVotingPeriod && p.VotingEndTime != nil && !p.VotingEndTime.After(c.Time)) {
+			seen[r.spenders[id]] = true
+			ks = append(ks, r.spenders[id])
+		}
+	}
+	sort.Strings(ks)
+	return strings.Join(ks, "+")
+}
+
+// observeEscrow compares the governance account's balance with the deposits recorded for open proposals.
+func (r *c07Run) observeEscrow() {
+	if len(r.spenders) == 0 || r.escrowShort != "" {
+		return
+	}
+	c := r.c
+	total := sdk.NewCoins()
+	_ = c.App.GovKeeper.Deposits.Walk(c.Ctx, nil, func(_ collections.Pair[uint64, sdk.AccAddress], d govv1.Deposit) (bool, error) {
+		total = total.Add(d.Amount...)
+		return false, nil
+	})
+	bal := c.App.BankKeeper.GetAllBalances(c.Ctx, authtypes.NewModuleAddress(govtypes.ModuleName))
+	if bal.IsAllGTE(total) {
+		return
+	}
+	due := r.dueSpenders(false)
+	if due == "" {
+		return // short for a reason this monitor did not cause: leave the generic key
+	}
+	r.escrowShort = due
+	r.res.Count("escrow_short_after/"+r.escrowShort, 1)
+	r.logf("deposit escrow short: balance %s < deposits %s after %s", bal, total, r.escrowShort)
 }
 
 // observeAging counts pending objects that are older than the signed window and lack a
@@ -326,18 +393,53 @@ func (r *c07Run) run() {
 			}
 		case x < 76 && spec.Gov: // governance proposal of an fx message type
 			msgs, want := r.proposalMsgs(rng.IntN(9), reverter)
+			// (in every second case only: once the escrow is short the case ends at the next refund)
+			spend := spec.Seed%2 == 0 && rng.IntN(6) == 0
+			selfDeposit := spend && rng.IntN(3) != 0
+			if spend && !selfDeposit {
+				// the governance account pays a user out of its own balance
+				msgs, want = []sdk.Msg{&banktypes.MsgSend{FromAddress: chain.GovAuthority(), ToAddress: c.Users[3].Bech32(), Amount: sdk.NewCoins(chain.FXCoin(int64(1 + rng.IntN(200))))}}, "gov-spend"
+			}
+			if selfDeposit {
+				// a proposal whose message is a deposit by the governance account itself on the proposal
+				// submitted right after it (same end of voting, executed later in the same block): the
+				// later one then has to pay its deposits back to the governance account
+				next, _ := c.App.GovKeeper.ProposalID.Peek(c.Ctx)
+				msgs, want = []sdk.Msg{&govv1.MsgDeposit{ProposalId: next + 1, Depositor: chain.GovAuthority(), Amount: sdk.NewCoins(chain.FXCoin(int64(100 + rng.IntN(50))))}}, "gov-self-deposit"
+			}
 			params, _ := c.App.GovKeeper.Params.Get(c.Ctx)
 			dep := params.MinDeposit
-			if rng.IntN(4) == 0 {
+			if !spend && rng.IntN(4) == 0 {
 				dep = sdk.NewCoins(chain.FXCoin(3000)) // stays in the deposit period and expires
 				want = "dropped"
 			}
 			id, res := fix.Propose(c, other, msgs, dep, "p")
 			r.logf("proposal %d (%s): %s", id, want, res.ErrString())
-			if res.OK() {
+			if res.OK() && spend && !selfDeposit {
+				for _, v := range c.Vals {
+					fix.GovVote(c, v.Operator, id, govv1.OptionYes)
+				}
+				open = append(open, prop{id, want})
+				r.spenders[id] = "cosmos.bank.v1beta1.MsgSend"
+			}
+			if res.OK() && selfDeposit {
+				for _, v := range c.Vals {
+					fix.GovVote(c, v.Operator, id, govv1.OptionYes)
+				}
+				open = append(open, prop{id, want})
+				r.spenders[id] = "cosmos.gov.v1.MsgDeposit"
+				// the companion it deposits on: same message type (same voting period), any voting pattern
+				msgs, want = []sdk.Msg{&govv1.MsgDeposit{ProposalId: id + 2, Depositor: chain.GovAuthority(), Amount: sdk.NewCoins(chain.FXCoin(1))}}, "gov-self-deposit-target"
+				id, res = fix.Propose(c, other, msgs, dep, "p")
+				r.logf("proposal %d (%s): %s", id, want, res.ErrString())
+			}
+			if res.OK() && want != "gov-spend" {
 				if want != "dropped" {
 					// voting patterns: everybody yes / no / abstain / veto, a split, a single voter, nobody
 					pat := rng.IntN(10)
+					if want == "gov-self-deposit-target" {
+						pat = []int{0, 2, 5, 6}[rng.IntN(4)]
+					}
 					opts := []govv1.VoteOption{govv1.OptionYes, govv1.OptionNo, govv1.OptionAbstain, govv1.OptionNoWithVeto}
 					for vi, v := range c.Vals {
 						opt := govv1.OptionYes
@@ -360,7 +462,7 @@ func (r *c07Run) run() {
 						}
 						fix.GovVote(c, v.Operator, id, opt)
 					}
-					if pat <= 5 {
+					if pat <= 5 && want != "gov-self-deposit-target" {
 						want = fmt.Sprintf("vote-pattern-%d", pat)
 					}
 				}
@@ -395,7 +497,13 @@ func (r *c07Run) run() {
 			st = pr.Status.String()
 		}
 		r.res.Count("proposals_ended", 1)
+		if r.verb && strings.HasPrefix(p.want, "gov-self-deposit") {
+			if sp, ok := fix.Proposal(c, p.id); ok {
+				fmt.Printf("gov-self-deposit proposal %d: %s reason=%q\n", p.id, sp.Status, sp.FailedReason)
+			}
+		}
 		r.outcomes[p.want+"="+st] = true
+		r.res.Count("proposal_outcome/"+p.want+"="+strings.TrimPrefix(st, "PROPOSAL_STATUS_"), 1)
 	}
 }
 
